@@ -38,6 +38,17 @@ Proof. destruct a; reflexivity. Qed.
 Lemma sgn_gt0 a : Z.ltb 0 (Z.sgn a) = Z.ltb 0 a.
 Proof. destruct a; reflexivity. Qed.
 
+(* a single bit tested through a mask: (b & (1 << j)) == (1 << j)  is  b.Bit(j) *)
+Lemma land_mask_testbit a j : (0 <= j)%Z -> Z.eqb (Z.land a (Z.shiftl 1 j)) (Z.shiftl 1 j) = Z.testbit a j.
+Proof.
+  intros Hj. rewrite Z.shiftl_1_l.
+  destruct (Z.testbit a j) eqn:T.
+  - apply Z.eqb_eq. apply Z.bits_inj'. intros n Hn. rewrite Z.land_spec, Z.pow2_bits_eqb by lia.
+    destruct (Z.eqb_spec j n) as [->|Hne]; [now rewrite T|apply andb_false_r].
+  - apply Z.eqb_neq. intros E. apply (f_equal (fun z => Z.testbit z j)) in E.
+    rewrite Z.land_spec, Z.pow2_bits_true, T in E by lia. discriminate E.
+Qed.
+
 Ltac gen_compare :=
   rewrite ?big_cmp_gt0, ?big_cmp_ge0, ?big_cmp_lt0, ?big_cmp_le0, ?big_cmp_eq0, ?big_cmp_eq1, ?big_cmp_eqm1,
           ?big_bitlen_eq0, ?sgn_eq0, ?sgn_lt0, ?sgn_gt0, ?Z.gtb_ltb, ?Z.geb_leb in *.
@@ -111,6 +122,8 @@ Ltac gen_small_with tac :=
   | H : context [Z.modulo ?t ?c] |- _ => rewrite (Z.mod_small t c) in * by tac
   | |- context [Z.of_N (Z.to_N ?t)] => rewrite (Z2N.id t) in * by tac
   | H : context [Z.of_N (Z.to_N ?t)] |- _ => rewrite (Z2N.id t) in * by tac
+  | |- context [Z.eqb (Z.land ?a (Z.shiftl 1 ?j)) (Z.shiftl 1 ?j)] => rewrite (land_mask_testbit a j) in * by tac
+  | H : context [Z.eqb (Z.land ?a (Z.shiftl 1 ?j)) (Z.shiftl 1 ?j)] |- _ => rewrite (land_mask_testbit a j) in * by tac
   end.
 Ltac gen_small := gen_small_with lia.
 
@@ -202,3 +215,35 @@ Qed.
 
 (* one step of a generated loop function [f] on a list / count that is a constructor application *)
 Ltac gen_step f := cbn [f]; cbv zeta.
+
+(* ---------- loops, found through their call marker ----------
+   Leaf.v writes the call of a loop function as  gen_loop<k> f a1 .. ak  with f = the loop function applied to its
+   invariant parameters.  The _gen files state the loop lemma over that f (whatever its name and invariants are):
+
+     lazymatch goal with |- context [gen_loop2 ?f _ _] =>
+       assert (L : forall l acc, f l acc = ...) by (induction l; intros; gen_loop_step f; ...) end
+
+   [gen_loop_step f] unfolds the loop function once (on a constructor) and nothing else. *)
+Ltac gen_head t := lazymatch t with ?f _ => gen_head f | _ => t end.
+Ltac gen_loop_step f := let h := gen_head f in cbn [h]; cbv zeta.
+Ltac gen_unmark := unfold gen_loop1, gen_loop2, gen_loop3, gen_loop4, gen_loop5, gen_loop6 in *.
+(* unfold the wrappers (every generated Definition), keep loops and big-integer helpers folded *)
+Ltac gen_open := autounfold with gen in *; cbv zeta in *; cbn [fst snd] in *.
+(* a goal that is an equation between nests of conditionals over boolean atoms: case analysis on every atom *)
+Ltac gen_atom b :=
+  lazymatch b with
+  | andb _ _ => fail | orb _ _ => fail | negb _ => fail | (if _ then _ else _) => fail
+  | true => fail | false => fail | _ => idtac
+  end.
+Ltac gen_bool_split :=
+  repeat (cbn [negb andb orb]; cbv beta iota;
+          match goal with
+          | |- context [andb ?a _] => gen_atom a; destruct a eqn:?
+          | |- context [andb _ ?a] => gen_atom a; destruct a eqn:?
+          | |- context [orb ?a _] => gen_atom a; destruct a eqn:?
+          | |- context [orb _ ?a] => gen_atom a; destruct a eqn:?
+          | |- context [negb ?a] => gen_atom a; destruct a eqn:?
+          | |- context [if ?a then _ else _] => gen_atom a; destruct a eqn:?
+          end);
+  cbn [negb andb orb]; cbv beta iota.
+Ltac gen_bools := gen_bool_split; try reflexivity; try congruence.
